@@ -520,7 +520,7 @@ def encode_witness(name, w, label=""):
         return [1, 1 if w.get("known") else 0, 1 if w.get("in_order") else 0]
     if name == "c19_wrapper":
         return [2]
-    if "place_in_the_sequence" in label or "checked_first" in label:
+    if "place_in_the_sequence" in label or "checked_first" in label or "end_with_a_final_reply" in label:
         # shows natively as the canonical sequence breaking at this step or the one after it
         return [3]
     return [0, 1 if w["cid_ok"] else 0, tri(w["more"]), tri(w["oneway"]), tri(w["upgrade"]), 1 if w["method_ok"] else 0,
